@@ -281,3 +281,20 @@ Example C11_queue_cancelled_read_loses_nothing :
     qrun qinit [QRead; QFeed m; QCancel; QRead; QFeed m2; QReturn] = Some st /\ q_got st = [m] /\ q_buf st = [m2].
 Proof. exact cancel_after_wake_keeps_message. Qed.
 Print Assumptions C11_queue_cancelled_read_loses_nothing.
+
+(* read flow control of the queue (pause / resume tests regenerated from feed_data / _read_from_buffer): for every
+   positive limit and every sequence of feeds and reads, once the consumer has drained the queue reading is not paused
+   and the size counter is back to 0 — the peer's next frames can arrive *)
+Theorem C11_drained_queue_is_not_paused :
+  forall (lim : N) (evs : list flev) (st : flstate),
+    0 < lim -> flrun lim flinit evs = Some st -> fl_buf st = [] -> fl_paused st = false /\ fl_size st = 0.
+Proof. exact drained_from_init. Qed.
+Print Assumptions C11_drained_queue_is_not_paused.
+
+Example C11_drained_queue_example :
+  (* limit 8 (_limit 16): a 40-byte message alone pauses reading; reading it resumes *)
+  exists st, flrun 16 flinit [FlFeed 40; FlPop; FlFeed 4; FlFeed 4; FlPop] = Some st
+             /\ fl_paused st = false /\ fl_buf st = [4]
+  /\ exists st1, flrun 16 flinit [FlFeed 40] = Some st1 /\ fl_paused st1 = true.
+Proof. eexists. split; [reflexivity|]. split; [reflexivity|]. split; [reflexivity|]. eexists. split; reflexivity. Qed.
+Print Assumptions C11_drained_queue_example.
